@@ -46,6 +46,25 @@ Meaning of the constructs (combinators: lean/KestrelModel/RsPrelude.lean, RsIO.l
   a.checked_sub(b)          -> Rs.checkedSub a b (usize / u64);  o.ok_or(e), o.ok_or_else(|| e) -> Rs.okOrElse o e
   Zeroizing::new(f(x)?), &f(x)?   -> the `?` is taken at the statement (the wrapper is the identity)
   const A: T = <expr over other consts>  -> the consts it mentions are emitted first
+Normalising passes and constructs added for the second batch of harmless patches (the generated header states the meaning of those
+that occur: table NOTES; nothing is added to the header for sources that do not use them):
+  let S { a: x, b, c: _, .. } = e;     -> `let x := e.a; let b := e.b` (fields checked against the struct; without `..` every field
+                               must be named; a one-field struct is the field: `e` itself)
+  match f(..) { .. } where evaluating the scrutinee needs statements (fills a buffer, a `&mut self` method, `?`)
+                            -> the statements of `let t = f(..);`, then the `match` on `t` (hoist_match: as the value of the function,
+                               of a `return`, of a `let`, as a statement, in `let x = match .. { Ok(v) => v, Err(e) => return .. }`)
+  the pattern `()`; `ref name` in a pattern (a reference is the value it points to)
+  r.map(|x| e)              -> `Except.map (fun x => e) r` on a `Result`, `Option.map (fun x => e) r` on an `Option`
+  s.split_at(n)             -> `(s.take n, s.drop n)`
+  let x = if c { stmts; a } else { b };   let x = match s { p => { stmts; a }, q => return .., .. };   (also `if let`)
+                            -> a DEFERRED `let`: `x` is declared, the expression becomes the statement `if c { stmts; x = a } else
+                               { x = b }` and goes through if_pure / if_step / if_chain like any statement (assignments to outer
+                               variables, `?`, `return` in the branches get their meaning there).  A branching expression whose
+                               branches have only effect-free `let`s stays a Lean term (block_expr).  The same for the value of the
+                               function: `let result' = <it>; result'`.  `let x;` / `let x: T;` written by hand is accepted too.
+  x = f(..)?;  x = o.insert(v);          -> for a variable x: the statements of `let t = ..;`, then `x = t`
+  o.insert(v) on an `Option` place      -> `let t := v; o := some t`, value `t` (the `&mut T` Rust returns is modelled by its value:
+                               a write through a variable bound to it is refused)
 """
 import sys, os, hashlib
 
@@ -107,7 +126,7 @@ WRAP_GENERICS = {'Zeroizing': 0}
 
 INTS = S.INTS
 NATS = S.NATS
-MUTATORS = {'extend_from_slice', 'push_back', 'pop_front', 'copy_from_slice', 'clone_from', 'zeroize'}
+MUTATORS = {'extend_from_slice', 'push_back', 'pop_front', 'copy_from_slice', 'clone_from', 'zeroize', 'insert'}
 PANIC_MACROS = {'assert', 'debug_assert', 'assert_eq', 'debug_assert_eq', 'unimplemented', 'panic', 'unreachable', 'todo'}
 
 
@@ -390,8 +409,13 @@ class NParser(S.SParser):
                     stmts.append(Node('lettuple', tok.line, names=names, ty=ty, init=init)); continue
                 mut = bool(self.accept('mut'))
                 name = self.ident()
+                if not mut and (self.at('::') or (self.at('{') and name.text[:1].isupper())):
+                    stmts.append(self.parse_let_struct(tok, name)); continue
                 if self.at('(') or self.at('{') or self.at('::'): raise Unsupported('pattern in `let`', tok.line)
                 ty = self.parse_type() if self.accept(':') else None
+                if self.accept(';'):
+                    if name.text == '_': raise Unsupported('`let _;`', tok.line)
+                    stmts.append(Node('letdecl', tok.line, name=name.text, mut=mut, ty=ty)); continue
                 if not self.accept('='): raise Unsupported('`let` without initialiser', tok.line)
                 init = self.parse_expr()
                 if self.at('else'): raise Unsupported('`let … else`', tok.line)
@@ -432,6 +456,34 @@ class NParser(S.SParser):
                 tail = e
         self.expect('}')
         return Node('block', line, stmts=stmts, tail=tail)
+
+    def parse_let_struct(self, tok, first):
+        """`let Path { field: name, field, field: _, .. } = init;` (after `let Path`): the bindings are plain names or `_`"""
+        path = [first.text]
+        while self.accept('::'): path.append(self.ident().text)
+        if not self.accept('{'): raise Unsupported('pattern in `let`', tok.line)
+        fields, rest = [], False
+        while not self.accept('}'):
+            if rest: raise Unsupported('struct pattern with fields after `..`', tok.line)
+            if self.accept('..'):
+                rest = True; continue
+            if self.at('ref') or self.at('mut') or self.at('box'): raise Unsupported('`ref` / `mut` binding in a struct pattern', tok.line)
+            f = self.ident()
+            bind = f.text
+            if self.accept(':'):
+                if self.at('ref') or self.at('mut') or self.at('&') or self.at('('):
+                    raise Unsupported('struct pattern whose field pattern is not a plain name or `_`', tok.line)
+                bind = self.ident().text
+                if self.at('{') or self.at('(') or self.at('::') or self.at('@') or not (bind[:1].islower() or bind[:1] == '_'):
+                    raise Unsupported('struct pattern whose field pattern is not a plain name or `_`', tok.line)
+            fields.append((f.text, bind))
+            if not self.at('}'): self.expect(',')
+        ty = self.parse_type() if self.accept(':') else None
+        if not self.accept('='): raise Unsupported('`let` without initialiser', tok.line)
+        init = self.parse_expr()
+        if self.at('else'): raise Unsupported('`let … else`', tok.line)
+        self.expect(';')
+        return Node('letstruct', tok.line, path=path, fields=fields, rest=rest, ty=ty, init=init)
 
     # ---- expressions
     def parse_cond(self):
@@ -475,7 +527,15 @@ class NParser(S.SParser):
                 elems.append(self.parse_pat(line))
                 if not self.at(')'): self.expect(',')
             if len(elems) == 1: return elems[0]
+            if not elems: return Node('pat', tok.line, k='unit')
             return Node('pat', tok.line, k='tuple', elems=elems)
+        if tok.kind == 'id' and tok.text == 'ref' and self.peek(1).kind == 'id' and self.peek(1).text not in ('mut', 'ref', 'box'):
+            # `ref name`: a binding by reference -- a reference is modelled by the value it points to
+            self.next()
+            nm = self.ident().text
+            if self.at('@') or self.at('(') or self.at('{') or self.at('::') or not (nm[:1].islower() or nm[:1] == '_'):
+                raise Unsupported('`ref` in front of something other than a plain name', line)
+            return Node('pat', tok.line, k='bind', name=nm)
         if tok.kind != 'id' or tok.text in ('ref', 'mut', 'box'):
             raise Unsupported('`match` pattern other than a path, a name, `_`, `None`, `Some(..)`, `Ok(..)`, `Err(..)` or a tuple of these', line)
         p = [self.ident().text]
@@ -663,6 +723,9 @@ class NFn(S.SFn):
         self.tr = tr
         super().__init__(tr.crate, mod, fn, lean_name)
 
+    def bad(self, what, line=None):
+        raise Unsupported(what, line)
+
     # ---- types
     def struct_node(self, q):
         mod, name = unqual(q)
@@ -842,6 +905,7 @@ class NFn(S.SFn):
 
     def expr(self, e, want=None):
         k = e.kind
+        if k == 'pre': return (e.text, e.ty, e.atomic)        # a value the statements above have already computed (hoist_match)
         if k == 'str':
             bs = self.str_bytes(e.text, e.line)
             return ('[' + ', '.join(f'({b} : UInt8)' for b in bs) + ']', ('list', 'u8', 'ref'), True)
@@ -914,6 +978,9 @@ class NFn(S.SFn):
         """Lean pattern for the Rust pattern `p` against a value of type `ty`; declares the names it binds in the current scope"""
         ty = resolve(ty)
         if p.k == 'wild': return '_'
+        if p.k == 'unit':
+            if ty != 'unit': self.bad(f'pattern `()` against a value of type {self.show(ty)}', line)
+            return '()'
         if p.k == 'bind':
             self.declare(p.name, ty, False, 'local', line)
             return lname(p.name)
@@ -1169,6 +1236,30 @@ class NFn(S.SFn):
             err = self.expr(arg, hint)
             self.lt(err[1])
             return (f'Rs.okOrElse {self.paren(recv)} {self.paren(err)}', ('result', rt[1], err[1]), False)
+        if name == 'map' and len(e.args) == 1 and isinstance(rt, tuple) and rt[0] in ('result', 'option'):
+            c = e.args[0]
+            if c.kind != 'closure' or len(c.params) != 1: self.bad('`.map` whose argument is not a closure with one parameter', e.line)
+            if S.contains(c.body, ('try', 'assign', 'loop', 'return', 'break', 'continue')) or self.effectful(c.body):
+                self.bad('`.map` whose closure has effects', e.line)
+            w = resolve(want) if want is not None else None
+            hint = w[1] if isinstance(w, tuple) and w[0] == rt[0] else None
+            self.scopes.append({})
+            if c.params[0] != '_': self.declare(c.params[0], rt[1], False, 'local', c.line)
+            body = self.expr(c.body, hint)
+            if hint is not None:
+                self.unify(body[1], hint, e.line, 'value of the `.map` closure'); body = self.expr(c.body, hint)
+            self.scopes.pop()
+            pn = '_' if c.params[0] == '_' else lname(c.params[0])
+            ty = ('result', body[1], rt[2]) if rt[0] == 'result' else ('option', body[1])
+            self.lt(ty)
+            self.tr.note('map')
+            fn = 'Except.map' if rt[0] == 'result' else 'Option.map'
+            return (f'{fn} (fun ({pn} : {self.lt(rt[1])}) => {body[0]}) {self.paren(recv)}', ty, False)
+        if name == 'split_at' and len(e.args) == 1 and is_list(rt):
+            a = self.expr(e.args[0], 'usize'); self.unify(a[1], 'usize', e.line, 'argument of `.split_at`'); a = self.expr(e.args[0], 'usize')
+            half = ('list', rt[1], 'ref')
+            self.tr.note('split_at')
+            return (f'({self.paren(recv)}.take {self.paren(a)}, {self.paren(recv)}.drop {self.paren(a)})', ('tuple', (half, half)), True)
         if name in MUTATORS: self.bad(f'`.{name}` used as an expression', e.line)
         return super().mcall_expr(e, want)
 
@@ -1220,9 +1311,35 @@ class NFn(S.SFn):
             return (v, f'({rd})', w2, ty)
         self.bad(f'{what}: only a variable, a field path or a range slice of one can be changed in place', e.line)
 
-    def set_place(self, pl, new):
+    def set_place(self, pl, new, rebind=False):
         v, read, wb, ty = pl
+        if getattr(v, 'borrowed', False) and not rebind:
+            self.bad(f'write through `{v.name}`, which holds the `&mut` reference `Option::insert` returned (it is modelled by the value it points to)')
         self.emit(f'let {lname(v.name)} := {wb(new)}')
+
+    def is_insert(self, e):
+        """`o.insert(v)` for a place `o` of type `Option<T>`"""
+        while e.kind == 'paren': e = e.e
+        if not (e.kind == 'mcall' and e.name == 'insert' and len(e.args) == 1 and self.is_place(e.recv)): return False
+        t = resolve(self.place_type(e.recv))
+        return isinstance(t, tuple) and t[0] == 'option'
+
+    def hoist_match(self, e):
+        """`match f(..) { .. }` where evaluating the scrutinee needs statements (it fills a buffer, is a `&mut self` method, has a
+        `?`) = `let t = f(..); match t { .. }`: the statements are emitted here, the `match` gets the computed value"""
+        x = e
+        while x.kind == 'paren': x = x.e
+        if x.kind != 'match': return e
+        sc = x.scrut
+        while sc.kind == 'paren': sc = sc.e
+        if sc.kind in ('tuple', 'pre') or not self.effectful(sc): return e
+        r = self.spine(sc)
+        if not r[2]:
+            t = self.fresh('m')
+            self.emit(f'let {t} : {self.lt(r[1])} := {r[0]}')
+            r = (t, r[1], True)
+        self.tr.note('matcheff')
+        return Node('match', x.line, scrut=Node('pre', sc.line, text=r[0], ty=r[1], atomic=True), arms=x.arms)
 
     # ---- effects at the root of a `let` initialiser, an expression statement, `return`
     def spine(self, e, want=None):
@@ -1231,6 +1348,18 @@ class NFn(S.SFn):
                 self.crate.expand(self.mod, self.local_uses, e.f.path) in IDENTITY_FNS and \
                 (S.contains(e.args[0], ('try',)) or self.effectful(e.args[0])):
             return self.spine(e.args[0], want)                     # `Zeroizing::new(f(x)?)`
+        if e.kind == 'match': e = self.hoist_match(e)
+        if self.is_insert(e):
+            pl = self.gplace(e.recv, 'receiver of `.insert`')
+            elem = resolve(pl[3])[1]
+            a = e.args[0]
+            if S.contains(a, ('try', 'assign', 'loop')) or self.effectful(a): self.bad('`.insert` whose argument has effects', e.line)
+            r = self.expr(a, elem); self.unify(r[1], elem, e.line, 'argument of `.insert`'); r = self.expr(a, elem)
+            n = self.fresh('v')
+            self.emit(f'let {n} : {self.lt(elem)} := {r[0]}')
+            self.set_place(pl, f'some {n}')
+            self.tr.note('insert')
+            return (n, elem, True)
         if e.kind == 'match' and any(isinstance(p, Node) for p, _ in e.arms) and any(self.diverges(b) is not None for _, b in e.arms):
             return self.match_let(e, want)
         if e.kind == 'try':
@@ -1335,6 +1464,7 @@ class NFn(S.SFn):
             return ex in ORION and ORION[ex][0] == 'out'
         if e.kind == 'mcall':
             if e.name == 'pop_front': return True
+            if self.is_insert(e): return True
             if e.name in ('unwrap', 'expect', 'unwrap_or_default', 'map_err'): return self.effectful(e.recv)
             if e.name in self.tr.mut_methods and self.is_place(e.recv):
                 t = resolve(self.place_type(e.recv))
@@ -1370,6 +1500,10 @@ class NFn(S.SFn):
                 walk(x.init, local); local.add(x.name); return
             if k == 'lettuple':
                 walk(x.init, local); local.update(n for n in x.names if n != '_'); return
+            if k == 'letstruct':
+                walk(x.init, local); local.update(b for _, b in x.fields if b != '_'); return
+            if k == 'letdecl':
+                local.add(x.name); return
             if k == 'for':
                 walk(x.iter, local)
                 walk(x.body, set(local) | {n for n in x.pat if n != '_'}); return
@@ -1414,6 +1548,12 @@ class NFn(S.SFn):
     def stmt(self, s):
         if s.kind == 'let': return self.let_stmt(s)
         if s.kind == 'lettuple': return self.lettuple_stmt(s)
+        if s.kind == 'letstruct': return self.letstruct_stmt(s)
+        if s.kind == 'letdecl':
+            # `let x;` / `let x: T;`: declared here, bound by the assignment that follows (Rust checks that one does on every path)
+            self.declare(s.name, self.sem(s.ty, s.line) if s.ty is not None else self.node_av(s), True, 'local', s.line)
+            self.tr.note('deferlet')
+            return
         if s.kind == 'use':
             self.local_uses.update(s.uses); return
         e = s.e
@@ -1445,7 +1585,16 @@ class NFn(S.SFn):
 
     def assign_stmt(self, e):
         op = e.op[:-1]
-        if S.contains(e.e, ('try',)) or self.effectful(e.e): self.bad('assignment whose right-hand side has effects', e.line)
+        bare = e.place.kind == 'path' and len(e.place.path) == 1            # `x = ..` (not `*x = ..`, `x.f = ..`, `x[..] = ..`)
+        if S.contains(e.e, ('try',)) or self.effectful(e.e):
+            # `x = f(..)?;` for a variable x: the effects are those of `let t = f(..)?;`, then `x = t`
+            if op or not bare: self.bad('assignment whose right-hand side has effects', e.line)
+            pl = self.gplace(e.place, 'assignment')
+            rhs = self.spine(e.e, pl[3])
+            self.unify(pl[3], rhs[1], e.line, 'assignment')
+            self.set_place(pl, rhs[0], rebind=True)
+            pl[0].borrowed = getattr(pl[0], 'borrowed', False) or self.is_insert(e.e)      # (sticky: another branch may have set it)
+            return
         p = self.strip(e.place)
         if p.kind == 'index' and p.ix.kind != 'range':
             return super().assign_stmt(e)
@@ -1454,7 +1603,7 @@ class NFn(S.SFn):
         if not op:
             self.unify(pl[3], rhs[1], e.line, 'assignment')
             rhs = self.expr(e.e, pl[3])
-            return self.set_place(pl, rhs[0])
+            return self.set_place(pl, rhs[0], rebind=bare)
         val = self.binop_on(op, (pl[1], pl[3], True), rhs, e)[0]
         self.set_place(pl, val)
 
@@ -1466,6 +1615,7 @@ class NFn(S.SFn):
         if s.name == '_':
             self.emit(f'let _ := {r[0]}'); return
         v = self.declare(s.name, ty, s.mut, 'local', s.line)
+        v.borrowed = self.is_insert(s.init)
         tv = resolve(ty)
         unknown = isinstance(tv, IntVar) or (is_list(tv) and isinstance(resolve(tv[1]), AnyVar))
         asc = '' if unknown and not isinstance(tv, tuple) else f' : {self.lt_or_blank(tv)}'
@@ -1485,10 +1635,109 @@ class NFn(S.SFn):
             if n != '_': self.declare(n, t, False, 'local', s.line)
         self.emit(f'let ({", ".join("_" if n == "_" else lname(n) for n in s.names)}) := {r[0]}')
 
-    def ret_value(self, e, line):
+    def letstruct_stmt(self, s):
+        """`let S { a: x, b, .. } = e;` -- `let x := e.a; let b := e.b` (a struct with one field is that field)"""
+        q = self.struct_of_path(s.path, s.line)
+        if q is None: self.bad(f'struct pattern of `{"::".join(s.path)}`', s.line)
+        node = self.struct_node(q)
+        if node.fields is None: self.bad(f'struct `{q}`: fields outside the subset', s.line)
+        names = [f for f, _, _ in node.fields]
+        given = [f for f, _ in s.fields]
+        if len(set(given)) != len(given) or any(f not in names for f in given):
+            self.bad(f'struct pattern of `{q}`: fields {given} are not fields {names}, each at most once', s.line)
+        if not s.rest and sorted(given) != sorted(names): self.bad(f'struct pattern of `{q}` without `..` that does not name every field', s.line)
+        binds = [b for _, b in s.fields if b != '_']
+        if len(set(binds)) != len(binds): self.bad('struct pattern that binds a name twice', s.line)
+        want = ('struct', q)
+        if s.ty is not None: self.unify(self.sem(s.ty, s.line), want, s.line, 'type of the struct pattern')
+        r = self.spine(s.init, want)
+        self.unify(r[1], want, s.line, 'value taken apart by the struct pattern')
+        base = r[0]
+        if not r[2] or any(lname(b) == base for b in binds):
+            base = self.fresh('p')
+            self.emit(f'let {base} : {self.lt(want)} := {r[0]}')
+        one = self.newtype(q) is not None
+        self.tr.note('letstruct')
+        for f, b in s.fields:
+            if b == '_': continue
+            ft = self.field_type(q, f, s.line)
+            self.declare(b, ft, False, 'local', s.line)
+            self.emit(f'let {lname(b)} : {self.lt(ft)} := ' + (base if one else f'{base}.{lname(f)}'))
+
+    # ---- `let x = if c { stmts; a } else { .. };` / `let x = match s { p => { stmts; a }, .. };`
+    def leaf_kind(self, body):
+        """'value' (an expression / a block ending in one), 'stmts' (a block with statements ending in a value),
+        'exit' (leaves the block), None (neither)"""
+        if body.kind in ('return', 'break', 'continue'): return 'exit'
+        if body.kind != 'block': return 'value'
+        if body.tail is not None: return 'stmts' if body.stmts else 'value'
+        if body.stmts and body.stmts[-1].kind in ('return', 'break', 'continue'): return 'exit'
+        return None
+
+    def leaves(self, e):
+        """the branch bodies of an `if` / `else if` / `else` chain or of a `match`, or None when there is no `else`"""
+        if e.kind == 'match': return [b for _, b in e.arms]
+        if e.els is None: return None
+        out = [e.then]
+        if not e.els.stmts and e.els.tail is not None and e.els.tail.kind == 'if':
+            rest = self.leaves(e.els.tail)
+            if rest is None: return None
+            return out + rest
+        return out + [e.els]
+
+    def deferrable(self, init):
+        """is `init` an `if` / `match` whose value needs the statement forms: a branch has statements in front of its value (other
+        than effect-free `let`s in an `if` without exits, which is a Lean term: block_expr)?"""
+        if init.kind not in ('if', 'match'): return False
+        bodies = self.leaves(init)
+        if bodies is None: return False
+        kinds = [self.leaf_kind(b) for b in bodies]
+        if None in kinds or 'stmts' not in kinds: return False
+        if init.kind == 'if' and init.cond.kind != 'letsome' and 'exit' not in kinds and \
+                all(x.kind == 'let' and not S.contains(x.init, ('try', 'loop')) for b in bodies if b.kind == 'block' for x in b.stmts):
+            return False
+        return True
+
+    def defer_let(self, s):
+        """`let x = if c { stmts; a } else { b };` (or a `match`) whose branches have statements is the STATEMENT
+        `if c { stmts; x = a } else { x = b }` with `x` declared first (a deferred `let`): the statement forms then give the
+        assignments, the `?`s and the early returns of the branches their meaning.  -> the statement, or None (not this form)"""
+        init = s.init
+        while init.kind == 'paren': init = init.e
+        if not self.deferrable(init): return None
+        if s.name == '_': self.bad('`let _ =` of a branching expression with statements', s.line)
+        name = s.name
+
+        def mentions(x):
+            if x.kind == 'path' and x.path == [name]: return True
+            return any(mentions(c) for c in S.children(x))
+        if mentions(init) and self.lookup_opt(name) is not None:
+            self.bad(f'`let {name} = ` a branching expression with statements that mentions an earlier `{name}`', s.line)
+
+        def with_assign(body):
+            if self.leaf_kind(body) == 'exit': return body
+            stmts, tail = (list(body.stmts), body.tail) if body.kind == 'block' else ([], body)
+            asg = Node('assign', tail.line, op='=', place=Node('path', tail.line, path=[name]), e=tail)
+            return Node('block', body.line, stmts=stmts + [Node('expr', tail.line, e=asg)], tail=None)
+
+        def rewrite(x):
+            if x.kind == 'match': return Node('match', x.line, scrut=x.scrut, arms=[(p, with_assign(b)) for p, b in x.arms])
+            if not x.els.stmts and x.els.tail is not None and x.els.tail.kind == 'if':
+                els = Node('block', x.els.line, stmts=[], tail=rewrite(x.els.tail))
+            else: els = with_assign(x.els)
+            return Node('if', x.line, cond=x.cond, then=with_assign(x.then), els=els)
+
+        ty = self.sem(s.ty, s.line) if s.ty is not None else getattr(s, 'sem_ty', None) or self.node_av(s)
+        if not hasattr(s, 'deferred'): s.deferred = rewrite(init)           # (the same statement in both passes: its nodes cache types)
+        self.declare(name, ty, s.mut, 'local', s.line)
+        self.tr.note('deferlet')
+        return s.deferred
+
+    def ret_value(self, e, line, hoist=False):
         if e is None:
             if resolve(self.ret_ty) != 'unit': self.bad('`return;` in a function with a result', line)
             return '()'
+        if hoist: e = self.hoist_match(e)
         if S.contains(e, ('try',)) or self.effectful(e): self.bad('`return` of an expression with effects', line)
         r = self.expr(e, self.ret_ty)
         self.unify(r[1], self.ret_ty, line, 'returned value')
@@ -1603,6 +1852,15 @@ class NFn(S.SFn):
         if tail is not None and tail.kind in ('if', 'loop', 'match', 'panic') and (ctx.stmt_tail or resolve(self.ret_ty) == 'unit'):
             stmts.append(Node('expr', tail.line, e=tail)); tail = None
         if tail is not None and not fn_level: self.bad('block ending in an expression', tail.line)
+        if tail is not None:
+            t = tail
+            while t.kind == 'paren': t = t.e
+            if self.deferrable(t):
+                # the value of the function is a branching expression with statements: `let result' = <it>; result'`
+                # (the same nodes in both passes; kept outside the tree, which must stay a tree)
+                syn = self.tr.synthetic.setdefault(id(t), (Node('let', t.line, name="result'", mut=False, ty=None, init=t, sem_ty=self.ret_ty),
+                                                           Node('path', t.line, path=["result'"])))
+                stmts.append(syn[0]); tail = syn[1]
         closers, terminated = 0, False
         depth0 = self.depth
         for i, s in enumerate(stmts):
@@ -1611,8 +1869,10 @@ class NFn(S.SFn):
             self.comment(s.line)
             inner = s.e if s.kind == 'expr' else None
             while inner is not None and inner.kind == 'paren': inner = inner.e
+            if s.kind == 'let': inner = self.defer_let(s)
+            if inner is not None and inner.kind == 'match': inner = self.hoist_match(inner)
             if s.kind == 'return':
-                self.emit(ctx.ret_packed(self, self.pack(self.ret_value(s.e, s.line)))); terminated = True
+                self.emit(ctx.ret_packed(self, self.pack(self.ret_value(s.e, s.line, hoist=True)))); terminated = True
             elif s.kind == 'break':
                 self.emit(ctx.brk(self, s.line)); terminated = True
             elif s.kind == 'continue':
@@ -1633,7 +1893,7 @@ class NFn(S.SFn):
             if fn_level:
                 if tail is not None:
                     self.comment(tail.line)
-                    self.emit(ctx.ret_packed(self, self.pack(self.ret_value(tail, tail.line))))
+                    self.emit(ctx.ret_packed(self, self.pack(self.ret_value(tail, tail.line, hoist=True))))
                 elif resolve(self.ret_ty) == 'unit':
                     self.emit(ctx.ret_packed(self, self.pack('()')))
                 else: self.bad('missing result expression', blk.line)
@@ -1733,9 +1993,15 @@ class Translator:
         self.chunks = []
         self.structs_done, self.enums_done, self.consts_done, self.froms_done = set(), set(), set(), set()
         self.panics = []
+        self.notes = set()
+        self.synthetic = {}
         self.first_pass = False
         self.mut_methods = {name for m in crate.mods.values() for (_, name), fn in m.items['methods'].items() if getattr(fn, 'self_kind', None) == 'mut'}
         self.fn_names = []
+
+    def note(self, key):
+        """a construct of NOTES was used: the generated header says what it means (nothing is added for the unchanged sources)"""
+        self.notes.add(key)
 
     def is_target(self, mod, fn):
         """functions outside TARGETS (helpers reached only because a target calls them, `impl From` bodies) are `@[simp]`"""
@@ -1830,6 +2096,19 @@ class Translator:
         return self.info[key]
 
 
+# constructs whose meaning the generated header states only when they occur (in this order)
+NOTES = [
+    ('letstruct', '`let S {{ a: x, b, .. }} = e;` is `let x := e.a; let b := e.b` (for a struct with one field: `e` itself).'),
+    ('matcheff', '`match f(..) {{ .. }}` where evaluating the scrutinee needs statements (it fills a buffer, is a `&mut self` method,\n'
+                 '    has a `?`) is `let t = f(..); match t {{ .. }}`; the pattern `()` is `()`.'),
+    ('map', '`r.map(|x| e)` is `Except.map (fun x => e) r` on a `Result`, `Option.map (fun x => e) r` on an `Option`.'),
+    ('split_at', '`s.split_at(n)` is `(s.take n, s.drop n)` (Rust panics when `n > s.len()`: totalised like a slice out of range).'),
+    ('deferlet', '`let x = if c {{ stmts; a }} else {{ b }};` / `let x = match s {{ p => {{ stmts; a }}, .. }};` whose branches have\n'
+                 '    statements is the statement `if c {{ stmts; x = a }} else {{ x = b }}` with `x` declared first (a deferred `let`).'),
+    ('insert', '`o.insert(v)` on an `Option` place is `o = Some(v)`; its value, a `&mut` to the stored `v`, is `v` (a write through it\n'
+               '    is refused); `x = f(..)?;` for a variable `x` is `let t = f(..)?; x = t`.'),
+]
+
 HEADER = '''/-
   GENERATED by tools/rs2lean_noise.py -- do not edit.
 {sources}
@@ -1857,7 +2136,7 @@ HEADER = '''/-
     `Ok(p)`, `Err(p)`, `(p, q)`, a variant); `let x = match r {{ Ok(v) => v, Err(_) => return e }};` has the form of `?`.
     `a.checked_sub(b)` is `Rs.checkedSub a b`; `o.ok_or(e)` / `o.ok_or_else(|| e)` is `Rs.okOrElse o e`; `for x in v.iter()` is
     `for x in v`.  A hand-written `Clone::clone` is translated like any function but is NOT `@[simp]` (derived: the identity).
-  * Panics are totalised: `Option::unwrap/expect` = `Rs.unwrap`, `Result::unwrap/expect` = `Rs.unwrapRes` (`default` in the
+{notes}  * Panics are totalised: `Option::unwrap/expect` = `Rs.unwrap`, `Result::unwrap/expect` = `Rs.unwrapRes` (`default` in the
     panicking case), `.try_into().unwrap()` from a slice to an array and orion's `from_slice(..).unwrap()` are the identity
     (they panic on a wrong length), slices out of range as in RsPrelude.lean, and these statements are dropped:
 {panics}
@@ -1889,7 +2168,8 @@ def translate(crate):
         f'  sha256 : {crate.mods[m].digest}' for m in ('', 'noise', 'errors'))
     panics = '\n'.join(f'      {f} line {ln} (`{fn}`): {text}' for f, fn, ln, text in sorted(tr.panics, key=lambda x: (x[0], x[2]))) or '      (none)'
     functions = ', '.join(tr.fn_names)
-    return HEADER.format(sources=sources, functions=functions, panics=panics) + '\n' + '\n\n'.join(tr.chunks) + '\n\nend Kestrel.NoiseSrc\n'
+    notes = ''.join(f'  * {text.format()}\n' for key, text in NOTES if key in tr.notes)
+    return HEADER.format(sources=sources, functions=functions, panics=panics, notes=notes) + '\n' + '\n\n'.join(tr.chunks) + '\n\nend Kestrel.NoiseSrc\n'
 
 
 def main(argv):
